@@ -1,10 +1,17 @@
 import ZV.Model.C05
+import ZV.Model.C05List
 import ZV.Drv.C04
 /-! line protocol for C05 (csr / crl lines are T3-only and never reach the driver):
       `c05 rl <seed> <key> <alg> <entries>`   entries: `,`-separated `serial:YYYYMMDDHHMMSS:reason|-:extras|-`,
                                                extras `+`-separated `oid/crit/valuehex`
         → `ok entries=<hex of the encoded revokedCertificates contents> parsed=<serial:time:reason|-:nexts,…>`
-      `c05 num <decimal>` → `ok <crlNumber extension value hex>` | `err` -/
+      `c05 num <decimal>` → `ok <crlNumber extension value hex>` | `err`
+      `c05 rlist <seed> <key> <alg> <sigAI hex> <issuer subject hex> <ski hex> <crlSign 0|1> <this unix/nsec> <next unix/nsec>
+                 <number|nil> <entries> <extras>`   entries: `,`-separated `serial:unix:reason|-:extras|-`
+        → `ok <parsed list>` (the model creates the list with a placeholder signature and parses it) | `err`
+      `c05 rlp <der hex>` → `ok sig=<hex> <parsed list>` | `err`   (`ParseRevocationList` on any input)
+      parsed list: `tbs= iss= this=<unix>@<off> next=<unix>@<off>|- num= aki=<hex>|nil entries=nil|-|<serial:unix@off:reason:exts:rawlen;…>
+                    exts=<oidhex/crit/valuehex+…>` -/
 namespace ZV.C05
 open ZV ZV.Der ZV.C04
 
@@ -29,8 +36,65 @@ def showP (p : PEntry) : String :=
   toString p.serial ++ ":" ++ String.ofList (p.time.map (fun b => Char.ofNat b.toNat)) ++ ":"
     ++ (match p.reason with | none => "-" | some n => toString n) ++ ":" ++ toString p.nexts
 
+def parseTimeStr (s : String) : Option GoTime :=
+  match s.splitOn "/" with
+  | [u, n] =>
+    match parseInt u, n.toNat? with
+    | some unix, some nsec => some { unix := unix, off := 0, nsec := nsec }
+    | _, _ => none
+  | _ => none
+
+def parseEntryTStr (s : String) : Option EntryT :=
+  match s.splitOn ":" with
+  | [ser, t, r, x] =>
+    match parseInt ser, parseInt t, (if r == "-" then some none else (parseInt r).map some),
+          (if x == "-" then some [] else (x.splitOn "+").mapM parseEExtStr) with
+    | some serial, some unix, some reason, some extras => some ⟨serial, { unix := unix, off := 0, nsec := 0 }, reason, extras⟩
+    | _, _, _, _ => none
+  | _ => none
+
+def showT (t : GoTime) : String := toString t.unix ++ "@" ++ toString t.off
+
+def showPExt (x : PExt) : String := toHex x.1 ++ "/" ++ (if x.2.1 then "1" else "0") ++ "/" ++ toHex x.2.2
+
+def showPE (p : PEntryT) : String :=
+  toString p.serial ++ ":" ++ showT p.time ++ ":" ++ (match p.reason with | none => "-" | some n => toString n) ++ ":"
+    ++ showList "+" (p.exts.map showPExt) ++ ":" ++ toString p.raw.length
+
+def showPRL (r : PRL) : String :=
+  "tbs=" ++ toHex r.rawTBS ++ " iss=" ++ toHex r.rawIssuer ++ " this=" ++ showT r.thisUpdate
+    ++ " next=" ++ (match r.nextUpdate with
+                    | none => "-"
+                    | some t => if isZeroTime t && t.off == 0 then "-" else showT t)   -- Go cannot tell 0001-01-01T00:00:00Z from "absent"
+    ++ " num=" ++ (match r.number with | none => "-" | some n => toString n)
+    ++ " aki=" ++ (match r.aki with | none => "nil" | some a => toHex a)
+    ++ " entries=" ++ (match r.entries with | none => "nil" | some es => showList ";" (es.map showPE))
+    ++ " exts=" ++ showList "+" (r.exts.map showPExt)
+
 def handle (args : List String) : String :=
   match args with
+  | ["rlist", _seed, _key, _alg, ai, subj, ski, cs, tu, nu, num, entries, extras] =>
+    match ofHex ai, ofHex subj, ofHex ski, parseBool01 cs, parseTimeStr tu, parseTimeStr nu,
+          (if num == "nil" then some none else (parseInt num).map some),
+          (splitList "," entries).mapM parseEntryTStr, (splitList "+" extras).mapM parseEExtStr with
+    | some ai, some subj, some ski, some cs, some tu, some nu, some num, some es, some xs =>
+      (match createRL ai ⟨subj, ski, cs⟩ ⟨tu, nu, num, es, xs⟩ [0] with
+       | .ok der =>
+         (match parseRL der with
+          | .ok r => "ok " ++ showPRL r
+          | .err => "created-but-rejected"
+          | .panic => "panic")
+       | .err => "err"
+       | .panic => "panic")
+    | _, _, _, _, _, _, _, _, _ => "bad-op"
+  | ["rlp", h] =>
+    match ofHex h with
+    | none => "bad-op"
+    | some der =>
+      (match parseRL der with
+       | .ok r => "ok sig=" ++ toHex r.signature ++ " " ++ showPRL r
+       | .err => "err"
+       | .panic => "panic")
   | ["rl", _seed, _key, _alg, entries] =>
     match (splitList "," entries).mapM parseEntryStr with
     | none => "bad-op"
